@@ -317,10 +317,18 @@ def run(ctx):
           "unique_labels" in norm(l.iter)]
     ok = False
     if len(lp) == 1:
-        body = [norm(s).replace(" ", "") for s in lp[0].body]
         i_, l_ = [norm(e) for e in lp[0].target.elts]
-        ok = "group=list(map(srccat.__getitem__,np.where(labels==%s)[0]))" \
-            % l_ in body and "groups[%s]=group" % i_ in body
+        # members of label l: a selection driven by (labels == l)
+        sel = [c for st in lp[0].body for c in ast.walk(st)
+               if isinstance(c, ast.Compare) and len(c.ops) == 1 and
+               isinstance(c.ops[0], ast.Eq) and
+               {norm(c.left), norm(c.comparators[0])} == {"labels", l_}]
+        other = [c for st in lp[0].body for c in ast.walk(st)
+                 if isinstance(c, ast.Compare) and c not in sel and
+                 "labels" in names_in(c)]
+        stores = [st for st in lp[0].body if isinstance(st, ast.Assign) and
+                  norm(st.targets[0]).replace(" ", "") == "groups[%s]" % i_]
+        ok = len(sel) == 1 and not other and len(stores) == 1
     ul = [s for s in walk_no_nested(rd.node) if isinstance(s, ast.Assign) and
           norm(s.targets[0]) == "unique_labels"]
     ok = ok and len(ul) == 1 and norm(ul[0].value) == "set(labels)"
